@@ -5,7 +5,8 @@ import CattrsModel.GenInterp.Model
 # C06 core, structuring: on payloads whose class positions hold mappings the generated hooks (`gen = true`)
 and the interpretive paths (`gen = false`) accept the same inputs with equal results
 -/
-namespace CattrsModel
+namespace CattrsModel.GenInterp
+open CattrsModel
 variable (w : World)
 
 /-! ### unfolding `mapsAtCls` -/
@@ -261,4 +262,11 @@ theorem struct_agree (hws : w.SupU false)
     stF w c1 t o = stF w c2 t o :=
   struct_agree_aux w c1 c2 hws hg2 hts hf1 (sizeOf o) (sizeOf t) t o (Nat.le_refl _) (Nat.le_refl _) hs hsc
 
-end CattrsModel
+theorem convStructure_eq_stF (w : World) (cfg : Cfg) (t : Ty) (o : Obj) :
+    convStructure w cfg t o = stF w cfg.core t o := by
+  unfold convStructure
+  split
+  · exact modes_agree w cfg.core t o
+  · rfl
+
+end CattrsModel.GenInterp
